@@ -299,6 +299,134 @@ pub fn run(args: &[String]) -> String {
             }
             "HOLDS bound: 11 pending-bit counts x 3 bit patterns x 7 prefix states x 4 probe bytes x every operation (2 bits, 2048 words, 256 bytes, clear, 372 key events, 2 modes)".into()
         }
+        // long pseudo-random histories compared step by step with the executable specification: functional defects that
+        // need hundreds of steps to show (a counter that wraps, a cache that goes stale)
+        "longrun" => {
+            let what = args[1].as_str();
+            let seed: u64 = args[2].parse().unwrap();
+            let steps: u64 = args[3].parse().unwrap();
+            let r = std::panic::catch_unwind(move || -> Option<u64> {
+                let mut x = seed.wrapping_mul(0x9E3779B97F4A7C15) | 1;
+                let mut next = move || {
+                    x ^= x << 13;
+                    x ^= x >> 7;
+                    x ^= x << 17;
+                    (x >> 11) as u32
+                };
+                match what {
+                    "bits" => {
+                        let mut d = Ps2Decoder::new();
+                        let mut st: (u8, u16) = (0, 0);
+                        // mostly well-formed frames (so that long runs stay aligned), some noise, rare clear()
+                        let mut i = 0u64;
+                        while i < steps {
+                            let r = next();
+                            if r % 997 == 0 {
+                                d.clear();
+                                st = (0, 0);
+                            }
+                            let byte = (r >> 8) as u8;
+                            let par = byte.count_ones() % 2 == 0;
+                            let mut w: u16 = ((byte as u16) << 1) | ((par as u16) << 9) | (1 << 10);
+                            if r % 13 == 0 {
+                                w ^= 1 << ((r >> 16) % 11);
+                            }
+                            let nb = if r % 101 == 0 { (r >> 20) % 11 } else { 11 };
+                            for k in 0..nb {
+                                let b = (w >> k) & 1 != 0;
+                                let got = d.add_bit(b);
+                                let (st2, e) = x_ps2_step(st.0, st.1, b);
+                                if got != e {
+                                    return Some(i);
+                                }
+                                st = st2;
+                                i += 1;
+                            }
+                            if nb != 11 {
+                                d.clear();
+                                st = (0, 0);
+                            }
+                        }
+                        None
+                    }
+                    "stream1" | "stream2" => {
+                        let set = if what == "stream1" { 1u8 } else { 2u8 };
+                        let mut d1 = ScancodeSet1::new();
+                        let mut d2 = ScancodeSet2::new();
+                        let mut c = XCtx::Start;
+                        let interesting = [0xE0u8, 0xE1, 0xF0, 0x1C, 0x14, 0x11, 0x12, 0x59, 0x5A, 0x70, 0x71, 0x75, 0x77, 0x7C, 0x83, 0x00, 0xAA, 0xFA, 0x9C, 0x9D, 0xB8, 0x1D, 0x38, 0x2A, 0x36, 0xAA, 0xB6];
+                        for i in 0..steps {
+                            let r = next();
+                            let b = if r % 3 == 0 { (r >> 8) as u8 } else { interesting[((r >> 8) as usize) % interesting.len()] };
+                            let got = if set == 1 { d1.advance_state(b) } else { d2.advance_state(b) };
+                            let e = if set == 1 { x_set1_out(c, b) } else { x_set2_out(c, b) };
+                            match e {
+                                Some(ev) => {
+                                    if got != ev {
+                                        return Some(i);
+                                    }
+                                }
+                                None => {
+                                    if got == Ok(None) {
+                                        return Some(i);
+                                    }
+                                }
+                            }
+                            c = if set == 1 { x_set1_next(c, b) } else { x_set2_next(c, b) };
+                        }
+                        None
+                    }
+                    _ => {
+                        // events: aspect in args[4] (1 modifiers, 2 decoded keys, 3 both)
+                        let mut kb = Keyboard::new(ScancodeSet2::new(), RecordingLayout(0), HandleControl::Ignore);
+                        let mut ed = EventDecoder::new(RecordingLayout(0), HandleControl::Ignore);
+                        let mut m = x_initial_mods();
+                        let mut h = HandleControl::Ignore;
+                        let mut tag = 0u8;
+                        let mods_keys = [KeyCode::LShift, KeyCode::RShift, KeyCode::LControl, KeyCode::RControl, KeyCode::LAlt, KeyCode::RAltGr, KeyCode::RControl2, KeyCode::CapsLock, KeyCode::NumpadLock];
+                        let mut last = KeyCode::A;
+                        for i in 0..steps {
+                            let r = next();
+                            if r % 53 == 0 {
+                                h = x_mode((r >> 8) & 1 != 0);
+                                kb.set_ctrl_handling(h);
+                                ed.set_ctrl_handling(h);
+                            }
+                            if r % 211 == 0 {
+                                tag = 1 - tag;
+                                ed.change_layout(RecordingLayout(tag));
+                            }
+                            let k = match r % 4 {
+                                0 => mods_keys[((r >> 8) as usize) % 9],
+                                1 => last,
+                                _ => x_keycode((r >> 8) as u8),
+                            };
+                            last = k;
+                            let s = x_state((r >> 16) as u8 % 5);   // Down twice as likely
+                            let s = if (r >> 16) % 5 >= 3 { KeyState::Down } else { s };
+                            let a = kb.process_keyevent(KeyEvent::new(k, s));
+                            let b = ed.process_keyevent(KeyEvent::new(k, s));
+                            let ea = x_decode_out(&m, h, k, s, 0);
+                            let eb = x_decode_out(&m, h, k, s, tag);
+                            m = x_mods_step(&m, k, s);
+                            let aspect: u8 = what.parse().unwrap_or(3);
+                            if aspect & 2 != 0 && (a != ea || b != eb) {
+                                return Some(i);
+                            }
+                            if aspect & 1 != 0 && *kb.get_modifiers() != m {
+                                return Some(i);
+                            }
+                        }
+                        None
+                    }
+                }
+            });
+            match r {
+                Ok(None) => format!("HOLDS bound: {} pseudo-random steps (seed {}) of `{}` compared step by step with the executable specification", steps, seed, args[1]),
+                Ok(Some(i)) => format!("FAILS longrun {} seed={} first mismatch at step {}", args[1], seed, i),
+                Err(_) => format!("FAILS longrun {} seed={} PANIC", args[1], seed),
+            }
+        }
         // soak: long monotonous histories that trip narrow counters (u8 / u16) hidden in decoder state
         "soak" => {
             let r = std::panic::catch_unwind(|| {
